@@ -335,8 +335,8 @@ def spec_input(case, impl):
 
 
 def oracle(case, impl, spec):
-    if not admissible(case):
-        return None
+    if not admissible(case) or spec.startswith('HARNESS-'):
+        return None          # (second case: the ledger DRIVER ran out of its time slice — not an observation)
     base, ids, off, ops = parse_case(case)
     st = steps_of(impl)
     sp = spec.split(' | ')
@@ -423,6 +423,8 @@ def oracle(case, impl, spec):
 def corr(case, impl, model):
     if impl == model:
         return None
+    if model.startswith('HARNESS-'):
+        return None      # the model DRIVER ran out of its time slice (counted in coverage): not an observation of the library
     if '!' in model or '!' in impl:
         return None      # flagged as outside the model's scope (nested collection outside a sweep; an address the
                          # allocator could not / the model would not hand out) - judged by the oracle only
@@ -538,7 +540,13 @@ def run(ctx):
         return lines
 
     def run_model(cs):
-        return ctx.run_lines(drv, cs, args=['model'], timeout=1800)[1]
+        # the extracted model works with unary naturals: a history over hundreds of objects takes tens of
+        # seconds, so the per-shard stall budget of run_lines (30 s + 3 * H_TIMEOUT) is raised for the driver
+        lines = ctx.run_lines(drv, cs, args=['model'], timeout=1800, env=dict(os.environ, H_TIMEOUT='150'))[1]
+        st = sum(1 for l in lines if l.startswith('HARNESS-'))
+        if st:
+            ctx.cov['model_driver_stalls'] = ctx.cov.get('model_driver_stalls', 0) + st
+        return lines
 
     def run_spec(cs):
         inp = []
@@ -547,7 +555,7 @@ def run(ctx):
                 inp.append(spec_input(c, last.get(c, '')))
             except Exception:
                 inp.append('-')
-        return ctx.run_lines(drv, inp, args=['spec'], timeout=1800)[1]
+        return ctx.run_lines(drv, inp, args=['spec'], timeout=1800, env=dict(os.environ, H_TIMEOUT='150'))[1]
 
     base = None
     for b in BASES:
@@ -558,6 +566,13 @@ def run(ctx):
     if base is None:
         raise vlib.HarnessBuildError('gcreg_wb: cannot map the probe arena at any of the fixed bases')
     d = vlib.Differential(ctx, 'gcreg', run_impl, run_model, run_spec, oracle, corr, nontrivial, split, join)
+    _shrink0 = d.shrink
+
+    def _shrink(case, fails):
+        # delta debugging re-runs the case hundreds of times: only worth it (and affordable) for cases
+        # whose model run is short; very long histories are reported as they are
+        return case if len(case) > 30000 else _shrink0(case, fails)
+    d.shrink = _shrink
     rp = os.environ.get('VERIF_REPLAY')
     if rp:
         r = json.load(open(rp))
@@ -572,10 +587,40 @@ def run(ctx):
     chunk = 1000
     done = 0
     import time as _time
-    _t0 = _time.time()
-    _budget = float(os.environ.get('VERIF_THOROUGH_BUDGET_S', '1500'))    # wall-clock budget of the random stream (thorough tier)
-    while done < n:
-        if not quick and _time.time() - _t0 > _budget:
+    # wall-clock budget of the whole check (thorough tier), counted from its start (Coq build and coqchk
+    # included); the complete parts run first, the random stream takes what is left
+    _budget = float(os.environ.get('VERIF_THOROUGH_BUDGET_S', '1500'))
+    _left = lambda: _budget - (_time.time() - ctx.t0)
+
+    def _progress(what):
+        if os.environ.get('VERIF_PROGRESS'):
+            print('[%6.0f s] %s' % (_time.time() - ctx.t0, what), file=__import__('sys').stderr, flush=True)
+    _progress('streams start')
+
+    def feed_exhaustive():
+        ex = exhaustive_cases(base, 3 if quick else 4)
+        fed = 0
+        for i in range(0, len(ex), 2000):
+            if not quick and _left() < 0:
+                break
+            d.feed(ex[i:i + 2000])
+            fed += len(ex[i:i + 2000])
+            _progress('exhaustive %d/%d' % (fed, len(ex)))
+        ctx.cov['exhaustive'] = ('%s %d admissible sequences of <= %d operations over {a0,a1,a2,A1,d0,d1,d2,c} x stack words {none, 0, all} '
+                                 'x 2 address patterns x 4 destructor behaviours (none, deleting, allocating, temporaries)'
+                                 % ('all' if fed == len(ex) else 'INCOMPLETE (wall-clock budget): %d of' % fed, len(ex), 3 if quick else 4))
+
+    if not quick:
+        feed_exhaustive()
+        if not d.oracle_fail and _left() > 300:
+            # past 1259 and 2417 slots and back; slot arrays compared by hash (brief dumps)
+            d.feed([gen_grow(ctx.rng, nbig, base, brief=True) for nbig in (1200, 1500)])
+            ctx.cov['growth_to_2417_slots'] = 'done (2 cases)'
+            _progress('growth cases done')
+        else:
+            ctx.cov['growth_to_2417_slots'] = 'skipped (wall-clock budget)'
+    while done < n and not d.oracle_fail:
+        if not quick and _left() < 0:
             ctx.notes.append('random stream stopped after %d of %d cases: wall-clock budget of %.0f s (VERIF_THOROUGH_BUDGET_S) used up' % (done, n, _budget))
             break
         m = min(chunk, n - done)
@@ -599,17 +644,12 @@ def run(ctx):
                 cases.append(gen_case(ctx.rng, 150, nmax if j % 7 else 20, base))
         d.feed(cases)
         done += m
-        if d.oracle_fail:
-            break
-    if not quick and not d.oracle_fail:
-        # past 1259 and 2417 slots and back; slot arrays compared by hash (brief dumps)
-        d.feed([gen_grow(ctx.rng, nbig, base, brief=True) for nbig in (1200, 1500)])
-    if not d.oracle_fail:
-        ex = exhaustive_cases(base, 3 if quick else 4)
-        for i in range(0, len(ex), 2000):
-            d.feed(ex[i:i + 2000])
-        ctx.cov['exhaustive'] = ('all %d admissible sequences of <= %d operations over {a0,a1,a2,A1,d0,d1,d2,c} x stack words {none, 0, all} '
-                                 'x 2 address patterns x 4 destructor behaviours (none, deleting, allocating, temporaries)' % (len(ex), 3 if quick else 4))
+        _progress('random %d' % done)
+    ctx.cov['random_stream'] = '%d of %d planned cases' % (done, n)
+    for x in (d.oracle_fail + d.corr_fail)[:3]:
+        _progress('DISAGREEMENT %s | case %s' % (x[4][:600], x[0][:300]))
+    if quick and not d.oracle_fail:
+        feed_exhaustive()
 
     def extra(dd):
         dd.feed([gen_case(ctx.rng, 60, 20, base) for _ in range(10 * min(n, 2000))])
